@@ -12,7 +12,7 @@ from av.props import simprop
 MANIFEST_ENTRY = {
     "category": "exploration",
     "technique": "round-trip monitor: structural content comparison (order-insensitive, 15 significant digits through spreadsheets, exact through binary files) and paired simulations, for frameworks, databooks, program books, calibrations, projects and results; plus seed-chosen sequences of editing operations after which the object is compared with the one rebuilt from its own exported spreadsheet; all 67 shipped models through every round trip; a failing write or read is itself a violation",
-    "text": "For generated and library inputs: framework.to_spreadsheet -> ProjectFramework, data.to_spreadsheet -> from_spreadsheet, progset.to_spreadsheet -> from_spreadsheet, parset.calibration_spreadsheet -> load_calibration (with unknown rows first / middle / last and with missing rows), Project.save/load and saveobj/loadobj of a Result. Content (every value, year, assumption, uncertainty, unit, population, transfer, interaction, target, effect) is extracted into an order-insensitive canonical form and compared; the simulations of the original and of the round-tripped object must agree to 1e-9, and a second round trip must reproduce the first bit for bit. Sequences of up to 4 operations from {copy, add_pop, remove_pop, add/remove_program, add/remove_par, zero-uncertainty sample(), reconcile, load_calibration} are applied in seed-chosen order, after which the object must simulate (1e-9) like the object rebuilt from its own exported spreadsheet. All 70 corpus models (49 shipped framework/databook(/program book) combinations, 18 fixture frameworks with a generated databook, 3 junction fixtures written out for two population types; 5 anchors in every quick run) go through the framework, databook, program-book, calibration and binary round trips; the exported content of edited program sets is compared with the rebuilt one; a write or read that raises is a violation. 15% of the generated series, transfers and interactions hold a constant next to year values; editing operations run on shipped data and program books as well (population types respected, removal by code or full name). Shipped databooks receive uncertainties and further years through the API before export. Programs listing sinks or junctions among their target compartments are part of the generated program books; five anchors run in every quick tier. Baseline-only reconciliations of the small library models run in every tier.",
+    "text": "For generated and library inputs: framework.to_spreadsheet -> ProjectFramework, data.to_spreadsheet -> from_spreadsheet, progset.to_spreadsheet -> from_spreadsheet, parset.calibration_spreadsheet -> load_calibration (with unknown rows first / middle / last and with missing rows), Project.save/load and saveobj/loadobj of a Result. Content (every value, year, assumption, uncertainty, unit, population, transfer, interaction, target, effect) is extracted into an order-insensitive canonical form and compared; the simulations of the original and of the round-tripped object must agree to 1e-9, and a second round trip must reproduce the first bit for bit. Sequences of up to 4 operations from {copy, add_pop, remove_pop, add/remove_program, add/remove_par, zero-uncertainty sample(), reconcile, load_calibration} are applied in seed-chosen order, after which the object must simulate (1e-9) like the object rebuilt from its own exported spreadsheet. All 70 corpus models (49 shipped framework/databook(/program book) combinations, 18 fixture frameworks with a generated databook, 3 junction fixtures written out for two population types; 5 anchors in every quick run) go through the framework, databook, program-book, calibration and binary round trips; the exported content of edited program sets is compared with the rebuilt one; a write or read that raises is a violation. 15% of the generated series, transfers and interactions hold a constant next to year values; editing operations run on shipped data and program books as well (population types respected, removal by code or full name). Shipped databooks receive uncertainties and further years through the API before export. Programs listing sinks or junctions among their target compartments are part of the generated program books; five anchors run in every quick tier. Baseline-only reconciliations of the small library models run in every tier. A fifth of the generated databooks have year columns 0.01 years apart.",
     "note": "Time points outside a table's year columns are not written by design, so generated series keep their years inside the table's years. Numbers are compared to 15 significant digits through spreadsheets.",
 }
 
